@@ -240,6 +240,7 @@ def run_case(ctx, st, pt, p: Pep, mono, charges, types=None):
 def run(ctx):
     st = State()
     pt = install(ctx, st)
+    ctx.enable_disturb(pt, 0.03)     # other legitimate library calls interleaved between cases (vf.gen.disturb)
     cfg = gp.GenCfg(min_len=2, max_len=15, letters=LETTERS, weights=dict(gp.W_NUMFORM), p_labile=0, p_unknown=0,
                     p_interval=0, p_charge=0.15, p_adducts=0, p_isotope=0, p_static=0, p_tag=0, p_alt=0, p_mult=0.1, p_res=0.25)
     small = gp.GenCfg(min_len=2, max_len=8, letters=LETTERS, weights=dict(gp.W_NUMFORM), p_labile=0, p_unknown=0,
